@@ -26,7 +26,7 @@ REQUIRED = ["iff_checked:plurality", "iff_checked:approval", "iff_checked:superm
             "margin_checked:contest_level_call_with_confirmed_assertions", "assertions_built_by_make_all_assertions",
             "candidate_names_contained_in_one_another", "contest_carries_a_reported_tally_when_assertions_are_made",
             "tally_taken_together_with_a_contest_of_another_n_winners", "ballots_in_pooled_batches_with_batch_means_set",
-            "margin_checked:sub_collection", "contest_identifier_assigned_after_assertions_were_made", "marks_held_in_a_dict_subclass", "vote_bearing_records_flagged_phantom"]
+            "margin_checked:sub_collection", "contest_identifier_assigned_after_assertions_were_made", "marks_held_in_a_dict_subclass", "vote_bearing_records_flagged_phantom", "contests_of_more_than_65536_ballots"]
 ASSUMPTIONS = ["shares f in {1/2,1/4,1/8} (f and 1/(2f) both dyadic) are exact in binary; inexact shares (2/3, 0.6) are only evaluated at a "
                "distance from the threshold that rounding cannot bridge", "a mark for a name that is not on the contest's "
                "candidate list (write-in) appears only on ballots with no mark for a listed candidate, so that no "
@@ -167,6 +167,16 @@ STRATA = ("random", "random", "tie", "true_winners", "true_winners", "exact_thre
 
 def run_shard(spec, rec):
     rng = random.Random(f"c02-{spec['seed']}-{spec['shard']}")
+    if spec["tier"] != "quick" or spec["shard"] % 4 == 0:
+        # one large contest (a little over 2^16 ballots, as any county has): a near-tie among the first 65 536 ballots and a
+        # last handful that decides it - the mean is over ALL ballots, each with weight one
+        d, r = rng.randint(3, 40), rng.randint(5, 60)
+        kind = rng.choice(("plurality", "supermajority"))
+        prof = {"kind": kind, "cands": ["A", "B"], "winners": ["A"], "share": 0.5 if kind == "supermajority" else None,
+                "ballots_rle": [[{"A": 1}, 32768 + d], [{"B": 1}, 32768 - d], [{"B": 1}, r]], "stratum": "large_contest",
+                "use_style": rng.random() < 0.5, "omit_share_arg": False, "via_make_all": False, "pooled": False}
+        rec.count("contests_of_more_than_65536_ballots")
+        run_case(prof, rec)
     for i in range(spec["n"]):
         kind = ("plurality", "approval", "supermajority")[i % 3]
         st = STRATA[(i // 3) % len(STRATA)]
@@ -235,6 +245,10 @@ def build(prof):
 
 
 def run_case(prof, rec):
+    if "ballots_rle" in prof:
+        prof = dict(prof)
+        prof["ballots"] = [dict(b) for b, n in prof["ballots_rle"] for _ in range(n)]
+        del prof["ballots_rle"]
     kind = prof["kind"]
     cands, winners = prof["cands"], prof["winners"]
     losers = [c for c in cands if c not in winners]
